@@ -1,7 +1,9 @@
 import GN.Driver.C10
 import GN.Driver.C12
+import GN.Driver.C16
 import GN.Driver.C19
 import GN.Driver.C20
+import GN.Driver.Req
 
 /-! Line-protocol driver: one verdict line per case line read from stdin. -/
 
@@ -12,8 +14,10 @@ def dispatch (line : String) : String :=
   match (line.trimAscii.toString.splitOn " ").filter (· != "") with
   | "C10" :: rest => GN.Driver.C10.handle rest
   | "C12" :: rest => GN.Driver.C12.handle rest
+  | "C16" :: rest => GN.Driver.C16.handle rest
   | "C19" :: rest => GN.Driver.C19.handle rest
   | "C20" :: rest => GN.Driver.C20.handle rest
+  | "REQ" :: rest => GN.Driver.Req.handle rest
   | [] => "EMPTY"
   | _ => "BADLINE unknown-tag"
 
